@@ -1,5 +1,4 @@
 import Pixman.Model.Format
-import Pixman.Model.Binary32
 /-! Line-protocol driver of the `format` domain (C10).  One request per line:
 
 * `F  <fmt> <mode> <pal> <x> <w> <rowhex>`            fetch `w` pixels from `x` to a8r8g8b8; `mode` starts with
@@ -8,12 +7,9 @@ import Pixman.Model.Binary32
 * `S  <fmt> <mode> <pal> <x> <rowhex> <valueshex>`    store a8r8g8b8 values (8 digits each) at `x`; `mode`
   starts with `r` (reply = raw row bytes afterwards) or `m` (bits of the stored pixels outside the
   format's channel fields are cleared in the reply).  Reply: row bytes in hex.
-* `FW <fmt> <mode> <pal> <x> <w> <rowhex>`            fetch to float; reply: `a r g b` per pixel as the IEEE-754 bit patterns computed by the
-  exact binary32 model (`Pixman.Model.Binary32`), 8 hex digits each.
+* `FW <fmt> <mode> <pal> <x> <w> <rowhex>`            fetch to float; reply: `a r g b` per pixel as exact `n/d`.
 * `SW <fmt> <mode> <pal> <x> <rowhex> <floatbits>`    store float pixels (4 × 8 hex digits `a r g b` IEEE bit
-  patterns per pixel); reply as for `S`.
-* `U  - s <n> 0 <count> <hex4 list>`                   the scalar `pixman_unorm_to_float (u, n)` (bit pattern) and
-  `pixman_float_to_unorm` of the result, width `n` = 1..16; reply `bits:unorm` per value.
+  patterns per pixel, decoded exactly); reply as for `S`.
 * `Y  <yuy2|yv12> <mode> <geom> <x> <w> <hex>`        fetch a YUV format to a8r8g8b8; `geom` is `0` for yuy2 (one row)
   and `<stride bytes>:<height>:<line>` for yv12 (`hex` = the whole planar buffer).
 * `YW ...` the same source fetched to rgba_float (reply as `FW`), `YX ...` to a2r10g10b10 (reply: 8-digit hex words):
@@ -23,7 +19,6 @@ import Pixman.Model.Binary32
 (formulas shared with harness/format.c). -/
 namespace Driver.Format
 open Pixman.Model.Format
-open Pixman.Model.Binary32 (Argb32 expandToFloat32 contractFromFloat32 fetchWide32 storeWide32 storeA2r10g10b10)
 open Pixman.Gen.Formats (Rec formats)
 
 def hexDigit (c : Char) : Option Nat :=
@@ -110,8 +105,8 @@ def storeLine (img : Image) (a : Array Nat) (x : Nat) (values : List Nat) : Arra
     -- `convertAndStorePixel pal m dest o f v` unfolded (definitionally) so that the conversion runs once
     storeRawArr a (img.row 0) o (fmtBpp img.format) (convertPixelFromA8r8g8b8 img.pal img.format v)) a
 
-/-- a float pixel as the four IEEE-754 bit patterns `a r g b` of the exact binary32 model -/
-def argbStr (p : Argb32) : String := hexNat 8 p.a ++ " " ++ hexNat 8 p.r ++ " " ++ hexNat 8 p.g ++ " " ++ hexNat 8 p.b
+def ratStr (q : Rat) : String := toString q.num ++ "/" ++ toString q.den
+def argbStr (p : Argb) : String := ratStr p.a ++ " " ++ ratStr p.r ++ " " ++ ratStr p.g ++ " " ++ ratStr p.b
 
 def mkImage (r : Rec) (pal : Nat) (nbytes : Nat) : Image :=
   { format := r.code, bits := base, rowstride := nbytes / 4, pal := mkPalette pal r.code }
@@ -128,8 +123,8 @@ def handle (line : String) : String :=
       if isWide r then
         -- wide source, a8r8g8b8 destination: float fetch, then `pixman_contract_from_float`
         String.join ((List.range w).map (fun i =>
-          match fetchWide32 r.name (read32 m (img.row 0 + 4 * (x + i))) with
-          | some p => hexNat 8 (contractFromFloat32 p)
+          match fetchWide r.name (read32 m (img.row 0 + 4 * (x + i))) with
+          | some p => hexNat 8 (contractFromFloat p)
           | none => "?"))
       else if r.acc ≠ 1 then "bad-request" else
       let vals := if mode.startsWith "p" then (List.range w).map (fun i => fetchPixel img m (x + i) 0)
@@ -143,7 +138,7 @@ def handle (line : String) : String :=
       if isWide r then
         -- a8r8g8b8 source, wide destination: `pixman_expand_to_float` of the source, then the float store
         let a := (vals.toList.zipIdx).foldl (fun a (v, i) =>
-          match storeWide32 r.name (expandToFloat32 A8R8G8B8 v) with
+          match storeWide r.name (expandToFloat A8R8G8B8 v) with
           | some p => freeze (write32 (memOf a) (img.row 0 + 4 * (x + i)) p) a.size
           | none => a) bytes
         let a := if mode.startsWith "m" then maskPixels a r.code x vals.size else a
@@ -160,10 +155,10 @@ def handle (line : String) : String :=
       let m := memOf bytes
       let _ := mode
       if r.acc = 1 then
-        " ".intercalate ((List.range w).map (fun i => argbStr (expandToFloat32 img.format (fetchPixel img m (x + i) 0))))
+        " ".intercalate ((List.range w).map (fun i => argbStr (fetchPixelGenericFloat img m (x + i) 0)))
       else if isWide r then
         " ".intercalate ((List.range w).map (fun i =>
-          match fetchWide32 r.name (read32 m (img.row 0 + 4 * (x + i))) with
+          match fetchWide r.name (read32 m (img.row 0 + 4 * (x + i))) with
           | some p => argbStr p
           | none => "?"))
       else "bad-request"
@@ -173,29 +168,22 @@ def handle (line : String) : String :=
     | some r, some pal, some x, some bytes, some vals =>
       let img := mkImage r pal bytes.size
       let n := vals.size / 4
-      let px : List Argb32 := (List.range n).map (fun i =>
-        { a := vals.getD (4 * i) 0, r := vals.getD (4 * i + 1) 0, g := vals.getD (4 * i + 2) 0, b := vals.getD (4 * i + 3) 0 })
+      let px : List Argb := (List.range n).map (fun i =>
+        { a := f32ToRat (vals.getD (4 * i) 0), r := f32ToRat (vals.getD (4 * i + 1) 0),
+          g := f32ToRat (vals.getD (4 * i + 2) 0), b := f32ToRat (vals.getD (4 * i + 3) 0) })
       if r.acc = 1 then
-        let a := storeLine img bytes x (px.map contractFromFloat32)
+        let a := storeLine img bytes x (px.map contractFromFloat)
         let a := if mode.startsWith "m" then maskPixels a r.code x n else a
         dumpArr a
       else if isWide r then
         let a := (List.range n).foldl (fun a i =>
-          match storeWide32 r.name (px.getD i ⟨0, 0, 0, 0⟩) with
+          match storeWide r.name (px.getD i ⟨0, 0, 0, 0⟩) with
           | some v => freeze (write32 (memOf a) (img.row 0 + 4 * (x + i)) v) a.size
           | none => a) bytes
         let a := if mode.startsWith "m" then maskPixels a r.code x n else a
         dumpArr a
       else "bad-request"
     | _, _, _, _, _ => "bad-request"
-  | ["U", _, _, n, _, _, vals] =>
-    -- `pixman_unorm_to_float (u, n)` as a bit pattern and `pixman_float_to_unorm` of it, for each 4-digit value
-    match n.toNat?, hexGroups 4 vals with
-    | some n, some us =>
-      " ".intercalate (us.toList.map (fun u =>
-        let f := Pixman.Model.Binary32.unormToFloat32 u n
-        hexNat 8 f ++ ":" ++ String.ofList (Nat.toDigits 16 (Pixman.Model.Binary32.floatToUnorm32 f n))))
-    | _, _ => "bad-request"
   | [op, fmt, mode, geom, x, w, row] =>
     if op ≠ "Y" ∧ op ≠ "YW" ∧ op ≠ "YX" then "bad-request" else
     match findFmt fmt, x.toNat?, w.toNat?, hexGroups 2 row with
@@ -218,8 +206,8 @@ def handle (line : String) : String :=
       | none => "bad-request"
       | some vals =>
         if op = "Y" then String.join (vals.map (hexNat 8))
-        else if op = "YW" then " ".intercalate (vals.map (fun v => argbStr (expandToFloat32 r.code v)))
-        else String.join (vals.map (fun v => hexNat 8 (storeA2r10g10b10 (expandToFloat32 r.code v))))
+        else if op = "YW" then " ".intercalate (vals.map (fun v => argbStr (genericFloatOf r.code v)))
+        else String.join (vals.map (fun v => hexNat 8 (storeA2r10g10b10Float (genericFloatOf r.code v))))
     | _, _, _, _ => "bad-request"
   | _ => "bad-request"
 
